@@ -26,4 +26,24 @@ def assignLegacy (w : World) (v : GV) (vt T : Ty) (firstSeenThroughIface : Optio
   | some i => if T == .iface i then .ok (.iface (some v)) else .error .err   -- Set(iface value) into *T panics
   | none => assign w v vt T
 
+/-- before C10-06: `MakeHash` → `SetMethodList` → `fillJsonMap` called `NumField` on the type of
+EVERY anonymous field: an embedded pointer (or any embedded non-struct) panicked, so no record of
+such a type could be made at all. -/
+def anonOkLegacy (w : World) : Nat → List Field → Bool
+  | 0, _ => true
+  | n+1, fs => fs.all (fun f =>
+      if f.anon then
+        match f.ty with
+        | .struct s => match w.find s with
+          | some d => anonOkLegacy w n d.fields
+          | none => true
+        | _ => false
+      else true)
+
+/-- could the pre-fix code build the record `(tn …)` at all? -/
+def constructibleLegacy (w : World) (tn : String) : Bool :=
+  match w.lookupReg tn with
+  | some d => anonOkLegacy w 8 d.fields
+  | none => true
+
 end ZygoVerif.LegacyToGo
